@@ -128,10 +128,14 @@ var (
 func SetASTCacheTTLOnce(d time.Duration) {
 	astCacheTTLOnce.Do(func() {
 		cacheConfigMutex.Lock()
-		astCacheTTL = d
-		astCacheCleanupOnce.Do(func() {
+		// Keep the cleanup interval at half the TTL as long as it still holds the value derived
+		// from the previous TTL, i.e. it was not set explicitly. This must not consume
+		// astCacheCleanupOnce: otherwise a later SetASTCacheCleanupIntervalOnce call (the order
+		// documented in the README and used by the CLI) would be silently ignored.
+		if astCacheCleanupInterval == astCacheTTL/2 {
 			astCacheCleanupInterval = d / 2
-		})
+		}
+		astCacheTTL = d
 		cacheConfigMutex.Unlock()
 	})
 }
